@@ -69,6 +69,13 @@ impl<'a, 'tcx> H<'a, 'tcx> {
             LitKind::Bool(b) => o.put_b("lit", *b).put_s("lk", "bool"),
             LitKind::Byte(b) => o.put_i("lit", *b as i128).put_s("lk", "byte"),
             LitKind::Float(s, _) => o.put_s("lit", s.to_string()).put_s("lk", "float"),
+            LitKind::ByteStr(b, _) => {
+                let bytes = b.as_byte_str();
+                match decode_fmt_template(bytes) {
+                    Some(t) => o.put_s("lit", t).put_s("lk", "fmt"),
+                    None => o.put_s("lit", String::from_utf8_lossy(bytes).into_owned()).put_s("lk", "bytes"),
+                }
+            }
             _ => o.put_s("lit", "<other>").put_s("lk", "other"),
         }
     }
@@ -322,5 +329,51 @@ impl<'a, 'tcx> H<'a, 'tcx> {
             j = j.put_b("exp", true);
         }
         j.done()
+    }
+}
+
+
+/// Decode the byte template of `core::fmt::Arguments::new` (length-prefixed literal pieces,
+/// placeholder bytes with the two top bits set, terminated by 0) back into a `format!`-like
+/// string with `{}` for every placeholder. Returns None if the bytes are not such a template.
+fn decode_fmt_template(b: &[u8]) -> Option<String> {
+    let mut out = String::new();
+    let mut i = 0usize;
+    loop {
+        let c = *b.get(i)?;
+        if c == 0 {
+            return if i + 1 == b.len() { Some(out) } else { None };
+        }
+        if c & 0xC0 == 0xC0 {
+            // placeholder: optional flags(4) width(2) precision(2) arg_index(2)
+            let mut n = 1;
+            if c & 0x01 != 0 {
+                n += 4;
+            }
+            if c & 0x02 != 0 {
+                n += 2;
+            }
+            if c & 0x04 != 0 {
+                n += 2;
+            }
+            if c & 0x08 != 0 {
+                n += 2;
+            }
+            out.push_str("{}");
+            i += n;
+            continue;
+        }
+        let (len, start) = if c == 0x80 {
+            let lo = *b.get(i + 1)? as usize;
+            let hi = *b.get(i + 2)? as usize;
+            (lo | (hi << 8), i + 3)
+        } else if c < 0x80 {
+            (c as usize, i + 1)
+        } else {
+            return None;
+        };
+        let piece = b.get(start..start + len)?;
+        out.push_str(std::str::from_utf8(piece).ok()?);
+        i = start + len;
     }
 }
